@@ -370,6 +370,8 @@ fn prog_menu() -> Vec<(&'static str, HandlerProgram)> {
         ("userTE", HandlerProgram::ok(BodySpec::Bytes(b"hello".to_vec())).header("transfer-encoding", "chunked")),
         ("userClose", HandlerProgram::ok(BodySpec::Bytes(b"hello".to_vec())).header("connection", "close")),
         ("userCLstream", HandlerProgram::ok(BodySpec::BodyStream(vec![d(b"hello")])).header("content-length", "5")),
+        ("streamNoChunking", HandlerProgram::ok(BodySpec::BodyStream(vec![d(b"he"), d(b"llo")])).no_chunking(5)),
+        ("customStreamNoChunking", HandlerProgram::ok(BodySpec::Custom(SizeDecl::Stream, vec![d(b"he"), Chunk::Pending, d(b"llo")])).no_chunking(5)),
     ]
 }
 
@@ -394,9 +396,9 @@ pub fn scenarios(tier: &str) -> Vec<Scenario> {
     }
     // pairs: the first handler is pending when the second head is decoded
     let first_reqs = ["GET11", "HEAD11", "POST11cl", "GET10ka", "GET11close", "POST11expect"];
-    let first_progs = ["bytes", "stream", "204body", "customEmptyChunk", "customShort", "streamErr", "customLongMid"];
+    let first_progs = ["bytes", "stream", "204body", "customEmptyChunk", "customShort", "streamErr", "customLongMid", "streamNoChunking"];
     let second_reqs = ["GET11", "HEAD11", "POST11cl", "GET10", "GET10ka", "GET11close", "HEAD10ka"];
-    let second_progs = ["bytes", "stream", "empty", "streamErr"];
+    let second_progs = ["bytes", "stream", "empty", "streamErr", "204body"];
     let get = |n: &str| reqs.iter().find(|(k, _)| *k == n).unwrap().1.clone();
     let getp = |n: &str| progs.iter().find(|(k, _)| *k == n).unwrap().1.clone();
     for fr in first_reqs {
